@@ -87,6 +87,7 @@ class World:
         head = W['base_nodes'][-1]
         self.pending = ledger.tx_payload(head, 'a')[0][0]
         self.node.cm.add_transaction_to_pool(self.pending)
+        self.waited = 0
         self.stored = {(): self.uni.root}
         for n in W['base_nodes']:
             self.stored[n.path] = n          # reference: path -> node of blocks legitimately in state
@@ -130,15 +131,21 @@ class World:
             self.D.received()
         return self.D if self.D.alive else self.O
 
-    def deliver_block(self, block, now, in_response_to=0):
-        """returns (relays seen by the non-delivering observer, deliverer) """
+    def deliver_block(self, block, now, in_response_to=0, header_ts=None):
+        """returns (relays seen by the non-delivering observer, deliverer).  The time stamp in the message header is the
+        sender's to choose: by default it is forged to the block's own time stamp (whatever the block claims about time, the
+        envelope agrees) - the node's clock is `now`"""
         self.net.clock.t = now
         who = self.deliverer()
         other = self.O if who is self.D else self.D
         pl_block = enc.enc_block(block)
         from skepticoin.networking.messages import MessageHeader
         who.msg_id += 1
-        h = MessageHeader(int(now), who.msg_id, in_response_to, 4242)
+        try:
+            hts = int(block.header.summary.timestamp) if header_ts is None else int(header_ts)
+        except Exception:
+            hts = int(now)
+        h = MessageHeader(min(max(hts, 0), 2**32 - 1), who.msg_id, in_response_to, 4242)
         data = h.serialize() + b'\x00\x04' + b'\x00' + b'\x00\x00' + pl_block
         who.send_raw(simnet.MAGIC + struct.pack(">I", len(data)) + data)
         bid = enc.blockid(block)
@@ -156,7 +163,7 @@ def alphabet(w):
     uni = w.uni
     out = []
     head = w.fc.head()
-    now = head.ts + 3000
+    now = head.ts + 3000 + 600 * w.waited
     stored_paths = set(w.stored.keys())
 
     def uni_block(path, name):
@@ -181,6 +188,9 @@ def alphabet(w):
         if n is not head and n.height >= head.height - 1 and p + ('e',) not in stored_paths and n.height > 1:
             uni_block(p + ('e',), 'valid-on-side-tip')
             break
+    # ten minutes pass without any delivery (once per sequence)
+    if not w.waited:
+        out.append(('ten-minutes-pass', None, now, None, 'wait', None))
     # duplicates
     out.append(('duplicate-of-head', head.block, now, head.parent, 'duplicate', head))
     out.append(('duplicate-of-old', w.W['base_nodes'][0].block, now, uni.root, 'duplicate', w.W['base_nodes'][0]))
@@ -267,6 +277,20 @@ def execute(trace, check_last=True, baseline=False):
 
 def step(w, event, bad, trace):
     name, block, now, parent, kind, obj = event
+    if kind == 'wait':
+        before = w.snapshot()
+        w.waited += 1
+        w.net.clock.t = now + 600
+        w.node.tick()
+        w.D.received()
+        w.O.received()
+        after = w.snapshot()
+        if (after['state_ids'], after['rows'], after['pool'], after['head']) != (before['state_ids'], before['rows'], before['pool'], before['head']):
+            bad.append(('idle-time-changes-state', "ten idle minutes changed chain state / store / pool", trace))
+        if w.net.escaped:
+            bad.append(('exception-escaped', "manager step after ten idle minutes: %s" % (w.net.escaped[0],), trace))
+            w.net.escaped.clear()
+        return 'not-entered', 'ref-invalid'
     before = w.snapshot()
     bid = enc.blockid(block)
     was_new = bid not in before['state_ids']
@@ -318,8 +342,41 @@ def step(w, event, bad, trace):
     return outcome, ('ref-valid' if ref_ok else 'ref-invalid')
 
 
+def closing_rejection(w, bad, trace):
+    """ten minutes later a relayed block that passes the stand-alone checks but fails full validation must still leave no
+    trace, whatever the sequence before did (hidden state left behind by earlier rejections included)"""
+    head = w.fc.head()
+    key = ('C01', head.path)
+    if key not in _cand_cache:
+        _cand_cache[key] = {c.name: c for c in cands.c01_candidates(head, w.uni)}
+    c = _cand_cache[key].get('signed-by-foreign-key')
+    if c is None or c.wire() is None:
+        return
+    now = head.ts + 3000 + 600 * (w.waited + 1)
+    w.net.clock.t = now
+    w.node.tick()
+    before = w.snapshot()
+    w.deliver_block(c.block, max(now, c.now))
+    after = w.snapshot()
+    bid = enc.blockid(c.block)
+    t = trace + ('ten-minutes-pass', 'closing-broken-signed-by-foreign-key')
+    if bid in after['state_ids']:
+        bad.append(('invalid-block-entered-state', "closing delivery of a block signed by a foreign key entered chain state", t))
+    if bid in after['rows'] or after['rows'] != before['rows']:
+        bad.append(('rejected-block-in-store', "ten minutes after the sequence, a relayed block that fails full validation is "
+                    "written to the block store", t))
+    if after['buffer']:
+        bad.append(('rejected-block-left-in-write-buffer', "closing rejected delivery stays in the write buffer", t))
+    if w.net.escaped:
+        bad.append(('exception-escaped', "closing rejected delivery: %s" % (w.net.escaped[0],), t))
+        w.net.escaped.clear()
+    w.waited += 1
+
+
 def closing_check(w, bad, trace):
     """a fresh valid block on the head must still get stored"""
+    if not getattr(w, 'is_baseline', False):
+        closing_rejection(w, bad, trace)
     head = w.fc.head()
     # (preferably the block 'e' on the head: the one whose tampered / premature copies are in the alphabet)
     for lab in ('e', 'y', 'x'):
@@ -328,7 +385,7 @@ def closing_check(w, bad, trace):
             break
     else:
         return
-    relays, who, other = w.deliver_block(n.block, n.ts + 3000)
+    relays, who, other = w.deliver_block(n.block, n.ts + 3000 + 600 * w.waited)
     s = w.snapshot()
     if n.bid in s['state_ids'] and n.bid not in s['rows']:
         bad.append(('later-block-not-stored', "after the sequence a fresh valid block is accepted into state but not written to the "
@@ -431,7 +488,7 @@ def bulk_then_rejected(arg):
 
 def canon(w):
     s = w.snapshot()
-    return (s['state_ids'], s['head'], s['pool'], s['rows'], s['buffer'], s['lkv'], s['d_alive'], s['o_alive'])
+    return (s['state_ids'], s['head'], s['pool'], s['rows'], s['buffer'], s['lkv'], s['d_alive'], s['o_alive'], w.waited)
 
 
 def _expand(trace):
